@@ -1847,6 +1847,12 @@ att_mnemo_table = {
         'bound',
         'pause',
         'endbr32', 'endbr64',
+        'hlt', 'clts', 'invd', 'wbinvd', 'rdmsr', 'wrmsr', 'rdtsc', 'rdpmc',
+        'sysenter', 'sysexit', 'syscall', 'sysret', 'monitor', 'mwait',
+        'into', 'iret', 'xlat', 'rsm', 'loop', 'loope', 'loopne',
+        'fcomi', 'fcomip', 'ftst', 'fxtract',
+        'invlpg', 'arpl', 'lldt', 'ltr', 'lmsw', 'verr', 'verw',
+        'sldt', 'smsw', 'str', 'lar', 'lsl',
         ] + mnemo_mmx + mnemo_prefetch + mnemo_float_optional_suffix,
     'suffix_one_ptr': [ {
             'b': x86_afs.u08,
@@ -1855,7 +1861,7 @@ att_mnemo_table = {
         'lea', 'mov', 'xchg', 'push', 'pop',
         'test', 'cmp', 'and', 'xor', 'or', 'not', 'neg',
         'add', 'adc', 'sub', 'mul', 'div', 'imul', 'idiv', 'inc', 'dec', 'xadd',
-        'sal', 'sar', 'shl', 'shr', 'rol', 'ror', 'sbb', 'shld', 'shrd', 'bsf', 'bsr',
+        'sal', 'sar', 'shl', 'shr', 'rol', 'ror', 'rcl', 'rcr', 'sbb', 'shld', 'shrd', 'bsf', 'bsr',
         'bt', 'bts', 'btr', 'btc', 'lgdt',
         'cvtsi2sd', 'cvtsi2ss', 'fisttp',
         'cmpxchg', 'movnti', 'rdrand',
@@ -1930,7 +1936,7 @@ def mnemo_from_att(prefix, name, args, asm_format):
     elif name == 'fwait':
         # both mnenomics are valid
         return prefix, 'wait'
-    elif name.startswith('j'): # Conditional jumps
+    elif name.startswith('j') or name.startswith('loop'): # Conditional jumps
         for a in args:
             if a[x86_afs.ad]:
                 a[x86_afs.ad] = False
@@ -2287,7 +2293,7 @@ class x86_mn(x86_mn_base):
         if asm_format.startswith('att_syntax'):
             args.reverse()
             mnemo[-1] = mnemo_to_att(mnemo[-1], self.arg, asm_format)
-            if mnemo[-1] == 'call' or mnemo[-1].startswith('j'):
+            if mnemo[-1] == 'call' or mnemo[-1].startswith('j') or mnemo[-1].startswith('loop'):
                 if   args[0][0] == '$':
                     args[0] = args[0][1:]
                 else:
